@@ -181,7 +181,8 @@ def ops_source(ops):
             out.append("p%d = %s()" % (n, op["cls"]))
             n += 1
         elif k == "seed":
-            out.append("%s.set_randstate(vsc.RandState.mkFromSeed(%d))" % (p, op["k"]))
+            out.append("%s.set_randstate(vsc.RandState.mkFromSeed(%d%s))" % (
+                p, op["k"], (", %r" % op["sv"]) if op.get("sv") is not None else ""))
         elif k == "assign":
             out.append("%s = %r" % (ppath(op["path"], p), op["v"]))
         elif k == "randomize":
